@@ -81,6 +81,16 @@ decreases depth(*path) // OBL:C14.must_skip.the_walk_up_terminates
                 || (final(self).filter.files@ == old(self).filter.files@ && final(errors)@.len() == old(errors)@.len() + 1), // OBL:C14.add_last_file_to_filter.feeds_the_file_found_last
             files@.len() == 0 ==> final(self).filter.files@ == old(self).filter.files@ && final(errors)@ == old(errors)@,
             final(self).to_visit@ == old(self).to_visit@, final(self).to_skip.s == old(self).to_skip.s, final(self).base == old(self).base,
+//@ item DirTourist::new
+//@ header
+    pub fn new(base: &PathS, ignore_files: &Vec<IgnoreFile>, watch_files: &Vec<PathS>) -> (r: Result<Self, IoError>)
+        ensures
+            // "when explicit watch paths are given, nothing from directories unrelated to them": the walker is handed EVERY explicit watch, and nothing else
+            // (an empty set means "no explicit watches were given" to visit_path, so dropping watches can turn a restricted walk into an unrestricted one)
+            r is Ok ==> r->Ok_0.to_explicitly_watch.s@ =~= watch_files@.to_set(), // OBL:C14.new.the_walker_is_handed_every_explicit_watch_and_nothing_else
+            // the walk starts at the (canonical) origin with nothing skipped, no error on record, and a filter made of the origin-level files
+            r is Ok ==> r->Ok_0.base == canon(*base) && r->Ok_0.to_visit@ =~= seq![canon(*base)] && r->Ok_0.to_skip.s@ =~= Set::<PathS>::empty()
+                && r->Ok_0.errors@.len() == 0 && r->Ok_0.filter.files@ == ignore_files@, // OBL:C14.new.the_walk_starts_at_the_origin_with_the_origin_level_files_and_nothing_skipped
 //@ item DirTourist::next
 //@ header
     pub fn next(&mut self) -> (r: Visit)
